@@ -182,28 +182,45 @@ def main():
 
     shards = 1 if replay else int(cfg.get("shards", NCPU))
     checks = int(cfg.get("checks", 1000))
-    procs = []
-    for s in range(shards):
-        sdir = os.path.join(wdir, "shard%d" % s)
+    chunk = int(cfg.get("chunk", 0)) or checks
+    if replay:
+        chunk = checks
+    # one job = one process; a shard's cases are split into chunks (bounded memory for engines that leak parked goroutines)
+    jobs = []
+    for s_ in range(shards):
+        left, ci = checks, 0
+        while left > 0:
+            n = min(chunk, left)
+            jobs.append({"shard": s_, "chunk": ci, "checks": n, "seed": shard_seed(seed, s_) + 7919 * ci})
+            left -= n
+            ci += 1
+    limit = float(cfg.get("timeout_s", 1500 if tier == "quick" else 14400))
+    memlimit = int(cfg.get("mem_gb", 8)) << 30
+    state = {"timed_out": False}
+
+    def run_job(j):
+        sdir = os.path.join(wdir, "shard%d_%d" % (j["shard"], j["chunk"]))
         os.makedirs(sdir)
+        j["dir"] = sdir
         env = dict(os.environ)
-        env.update({"VERIF_OUT": sdir, "VERIF_TIER": tier, "VERIF_SHARD": str(s), "VERIF_SHARDS": str(shards),
+        env.update({"VERIF_OUT": sdir, "VERIF_TIER": tier, "VERIF_SHARD": str(j["shard"]), "VERIF_SHARDS": str(shards),
                     "VERIF_SEED": str(seed), "VERIF_EXCLUDE": exclude,
-                    "VERIF_REGRESS": os.path.join(VERIF, "replays", "regress") if s == 0 else "",
+                    "VERIF_REGRESS": os.path.join(VERIF, "replays", "regress") if (j["shard"] == 0 and j["chunk"] == 0) else "",
                     "GODEBUG": cfg.get("godebug", "")})
         for k, v in cfg.get("env", {}).items():
             env[k] = str(v)
         if replay:
             env["VERIF_REPLAY"] = replay
+        if cfg.get("variant") == "instr":
+            env["VERIF_POINTS"] = os.path.join(wdir, "instr", "points.json")
         cmd = [binary, "-test.run", "^%s$" % cfg["test"], "-test.timeout=0", "-test.count=1",
-               "-rapid.checks=%d" % checks, "-rapid.seed=%d" % shard_seed(seed, s), "-rapid.nofailfile",
+               "-rapid.checks=%d" % j["checks"], "-rapid.seed=%d" % j["seed"], "-rapid.nofailfile",
                "-rapid.shrinktime=%s" % cfg.get("shrinktime", "20s")]
         if cfg.get("steps"):
             cmd.append("-rapid.steps=%d" % cfg["steps"])
         if cfg.get("verbose"):
             cmd.append("-test.v")
-        lf = open(os.path.join(sdir, "log.txt"), "w")
-        memlimit = int(cfg.get("mem_gb", 6)) << 30
+
         def pre():
             import resource
             os.setsid()
@@ -212,25 +229,32 @@ def main():
                     resource.setrlimit(resource.RLIMIT_AS, (memlimit, memlimit))
                 except Exception:
                     pass
-        p = subprocess.Popen(cmd, cwd=sdir, env=env, stdout=lf, stderr=subprocess.STDOUT, preexec_fn=pre)
-        procs.append((s, sdir, p, lf))
-
-    limit = float(cfg.get("timeout_s", 1500 if tier == "quick" else 14400))
-    timed_out = False
-    for s, sdir, p, lf in procs:
-        left = max(1.0, limit - (time.time() - t0))
-        try:
-            p.wait(timeout=left)
-        except subprocess.TimeoutExpired:
-            timed_out = True
+        left = limit - (time.time() - t0)
+        if left <= 1 or state["timed_out"]:
+            state["timed_out"] = True
+            j["rc"] = None
+            return j
+        with open(os.path.join(sdir, "log.txt"), "w") as lf:
+            p = subprocess.Popen(cmd, cwd=sdir, env=env, stdout=lf, stderr=subprocess.STDOUT, preexec_fn=pre)
             try:
-                os.killpg(p.pid, signal.SIGQUIT)
-                time.sleep(1.0)
-                os.killpg(p.pid, signal.SIGKILL)
-            except Exception:
-                pass
-            p.wait()
-        lf.close()
+                p.wait(timeout=left)
+            except subprocess.TimeoutExpired:
+                state["timed_out"] = True
+                try:
+                    os.killpg(p.pid, signal.SIGQUIT)
+                    time.sleep(1.0)
+                    os.killpg(p.pid, signal.SIGKILL)
+                except Exception:
+                    pass
+                p.wait()
+            j["rc"] = p.returncode
+        return j
+
+    from concurrent.futures import ThreadPoolExecutor
+    with ThreadPoolExecutor(max_workers=shards) as ex:
+        done = list(ex.map(run_job, jobs))
+    timed_out = state["timed_out"]
+    procs = [(j["shard"] * 1000 + j["chunk"], j["dir"], j) for j in done if j.get("rc") is not None or "dir" in j]
 
     # ---- merge
     evals = 0
@@ -242,7 +266,11 @@ def main():
     infra = []
     passed_re = re.compile(r"OK, passed (\d+) tests")
     executed = 0
-    for s, sdir, p, lf in procs:
+    for s, sdir, j in procs:
+        class P: pass
+        p = P(); p.returncode = j.get("rc")
+        if not os.path.exists(os.path.join(sdir, "log.txt")):
+            continue
         logtxt = open(os.path.join(sdir, "log.txt"), errors="replace").read()
         m = passed_re.findall(logtxt)
         executed += sum(int(x) for x in m)
@@ -250,18 +278,18 @@ def main():
         if os.path.exists(sp):
             st = json.load(open(sp))
             evals += st.get("evaluations", 0)
-            for k, v in st.get("classes", {}).items():
+            for k, v in (st.get("classes") or {}).items():
                 classes[k] = classes.get(k, 0) + v
-            for k, v in st.get("excluded", {}).items():
+            for k, v in (st.get("excluded") or {}).items():
                 excluded[k] = excluded.get(k, 0) + v
             for k, v in (st.get("extra") or {}).items():
                 if isinstance(v, (int, float)) and not isinstance(v, bool):
                     extra[k] = extra.get(k, 0) + v
                 else:
                     extra.setdefault(k, v)
-            hashes.update(st.get("nontrivial_hashes", []))
+            hashes.update(st.get("nontrivial_hashes") or [])
             if len(samples) < 5:
-                samples.extend(st.get("samples", [])[: max(1, 5 - len(samples))])
+                samples.extend((st.get("samples") or [])[: max(1, 5 - len(samples))])
         vp = os.path.join(sdir, "violations.json")
         shard_viol = json.load(open(vp)) if os.path.exists(vp) else []
         for v in shard_viol:
@@ -311,6 +339,7 @@ def main():
         "classes": classes,
         "excluded_by_construction": excluded,
         "cases_requested": checks * shards,
+        "processes": len(jobs),
         "rapid_ok_cases": executed,
         "shards": shards,
         "exhaustive": bool(extra.get("exhaustive", False)) if "exhaustive" in extra else False,
